@@ -103,6 +103,23 @@ def addr_name(case, tname, ni):
     return 'ap_%s_%d' % (tname, pool[str(ni)])
 
 
+CONST_RHS = 5
+
+
+def rhs_kind(case, tname, ni):
+    """what is assigned at node ni of target tname: 'in' (a fresh Input), 'self' (register targets: the register itself), 'const'"""
+    return case.get('rhs', {}).get(tname, {}).get(str(ni), 'in')
+
+
+def rhs_term(case, name, kind, i, t, v, cur):
+    how = rhs_kind(case, name, i)
+    if how == 'self' and kind in ('reg', 'reg_d'):
+        return cur
+    if how == 'const':
+        return z3.BitVecVal(CONST_RHS, DW)
+    return v.inp('d_%s_%d' % (name, i), t, DW)
+
+
 # --- elaboration with the real API ----------------------------------------------------------------
 
 def elaborate(case):
@@ -143,7 +160,13 @@ def elaborate(case):
         for tname, amap in assign.items():
             if amap.get(str(ni)) == when:
                 tgt = targets[tname]
-                d = pyrtl.Input(DW, 'd_%s_%d' % (tname, ni))
+                how = rhs_kind(case, tname, ni)
+                if how == 'self' and isinstance(tgt, pyrtl.Register):
+                    d = tgt                       # an explicit hold: r.next |= r
+                elif how == 'const':
+                    d = CONST_RHS
+                else:
+                    d = pyrtl.Input(DW, 'd_%s_%d' % (tname, ni))
                 if isinstance(tgt, pyrtl.MemBlock):
                     an = addr_name(case, tname, ni)
                     a = pyrtl.working_block().wirevector_by_name.get(an)
@@ -259,6 +282,16 @@ def cases(tier, seed):
         addrs = {k: rng.choice([0, 1, 1]) for k in amap}
         out.append({'shape': to_json(sh), 'targets': [{'kind': 'mem', 'name': 't0'}], 'assign': {'t0': amap}, 'K': 2,
                     'addrs': {'t0': addrs}})
+    # right-hand sides other than a fresh Input: the target register itself (an explicit hold) and integer constants
+    for i in range(300 if tier == 'quick' else 2000):
+        sh = rng.choice(pool)
+        n = len(flatten(sh))
+        kind = rng.choice(['reg', 'reg_d', 'reg_d', 'wire_d', 'mem'])
+        mask = rng.randrange(1, 1 << n)
+        amap = {str(k): rng.choice(['pre', 'post']) for k in range(n) if mask >> k & 1}
+        rhs = {k: rng.choice(['self', 'const', 'in'] if kind.startswith('reg') else ['const', 'in']) for k in amap}
+        out.append({'shape': to_json(sh), 'targets': [{'kind': kind, 'name': 't0'}], 'assign': {'t0': amap}, 'K': 2,
+                    'rhs': {'t0': rhs}})
     for sh in shapes5:
         n = 5
         reps = 1 if tier == 'quick' else 8
@@ -364,14 +397,14 @@ def run_case(case, ob, tier):
                     goals.append(('memread:%s@%d' % (name, t), got == z3.Select(arr, v.inp('ra_' + name, t, AW)), site + ':mem-read'))
                     new = arr
                     for i in idx:
-                        new = z3.If(act[i], z3.Store(arr, v.inp(addr_name(case, name, i), t, AW), v.inp('d_%s_%d' % (name, i), t, DW)), new)
+                        new = z3.If(act[i], z3.Store(arr, v.inp(addr_name(case, name, i), t, AW), rhs_term(case, name, kind, i, t, v, None)), new)
                     memstate[name] = new
                     continue
                 if kind in ('wire', 'wire_d'):
                     dflt = v.inp('dflt_' + name, t, DW) if kind == 'wire_d' else z3.BitVecVal(0, DW)
                     exp = dflt
                     for i in idx:
-                        exp = z3.If(act[i], v.inp('d_%s_%d' % (name, i), t, DW), exp)
+                        exp = z3.If(act[i], rhs_term(case, name, kind, i, t, v, None), exp)
                     goals.append(('wire:%s@%d' % (name, t), to_bv(r.trace['o_' + name][t], DW) == exp, site + ':value'))
                 else:
                     cur = regstate[name]
@@ -379,7 +412,7 @@ def run_case(case, ob, tier):
                     dflt = v.inp('dflt_' + name, t, DW) if kind == 'reg_d' else cur
                     nxt = dflt
                     for i in idx:
-                        nxt = z3.If(act[i], v.inp('d_%s_%d' % (name, i), t, DW), nxt)
+                        nxt = z3.If(act[i], rhs_term(case, name, kind, i, t, v, cur), nxt)
                     regstate[name] = nxt
         for name, arr in memstate.items():
             goals.append(('mem-final:%s' % name, r.mems[name] == arr, site + ':mem-final'))
@@ -419,6 +452,14 @@ def replay(cex):
     def val(name, t):
         x = mv.get('inputs', {}).get(name, {})
         return x.get(str(t), x.get(t, 0))
+
+    def dval(name, kind, i, t, cur):
+        how = rhs_kind(case, name, i)
+        if how == 'self' and kind in ('reg', 'reg_d'):
+            return cur
+        if how == 'const':
+            return CONST_RHS
+        return val('d_%s_%d' % (name, i), t)
     for t in range(K):
         forest = from_json(case['shape'])
         nodes = flatten(forest)
@@ -437,12 +478,12 @@ def replay(cex):
             if kind == 'mem':
                 exp = memstate[name].get(val('ra_' + name, t), 0)
                 if on:
-                    memstate[name][val(addr_name(case, name, on[-1]), t)] = val('d_%s_%d' % (name, on[-1]), t)
+                    memstate[name][val(addr_name(case, name, on[-1]), t)] = dval(name, kind, on[-1], t, None)
             elif kind in ('wire', 'wire_d'):
-                exp = val('d_%s_%d' % (name, on[-1]), t) if on else (val('dflt_' + name, t) if kind == 'wire_d' else 0)
+                exp = dval(name, kind, on[-1], t, None) if on else (val('dflt_' + name, t) if kind == 'wire_d' else 0)
             else:
                 exp = regstate[name]
-                regstate[name] = val('d_%s_%d' % (name, on[-1]), t) if on else (val('dflt_' + name, t) if kind == 'reg_d' else exp)
+                regstate[name] = dval(name, kind, on[-1], t, exp) if on else (val('dflt_' + name, t) if kind == 'reg_d' else exp)
             if got != exp:
                 diffs.append('cycle %d: %s reads %d, unique active branch gives %d (active branches %r)' % (t, name, got, exp, on))
     for name, exp in regstate.items():
